@@ -477,9 +477,12 @@ class Exec(ExprMixin, CallMixin):
             return
         self.ctx.yield_count += 1
         self.ctx.events.append(("yield", what, getattr(node, "lineno", None)))
-        hook = getattr(self, "on_yield", None)
-        if hook is not None:
-            hook(node, what)
+        # crash / yield obligations (DESIGN 2.5, 2.6): what must hold whenever the task can be suspended or the process killed
+        ci = self.contract.ghost.get("crash_invariant") if self.inline_depth == 0 else None
+        if ci:
+            for nm, src in ci.items():
+                t = self.truth(self._spec_eval(src))
+                self.ctx.oblige(f"crash:{self.contract.qualname}:{nm}@{what}", t, kind="crash", line=getattr(node, "lineno", None))
         if self.timeout_depth > 0 and self.catchable("TimeoutError"):
             if self.ctx.choose(2, f"timeout@{getattr(node, 'lineno', '?')}") == 1:
                 raise PyRaise(SExc("TimeoutError"))
@@ -500,11 +503,13 @@ class Exec(ExprMixin, CallMixin):
         spec = self.cur_contract.loops.get(ordn)
         src = self.eval(s.iter)
         mode, dct = "list", None
+        enum_start = 0
         if src.py is not None and src.py[0] in ("enumerate", "values", "items"):
             mode = src.py[0]
             inner = src.py[1]
             if mode == "enumerate":
                 L = self.iter_list(inner, s.iter)
+                enum_start = src.py[2] if len(src.py) > 2 else 0
             else:
                 dct = SV(inner.ty, inner.t)  # snapshot
                 L = self.enum_set(SV(TSet(dct.ty.key), dct.ty.dom(dct.t)), ordered=None)
@@ -520,7 +525,7 @@ class Exec(ExprMixin, CallMixin):
             elem = SV(lty.elem, z3.Select(lty.arr(L.t), idx))
             if mode == "enumerate":
                 tv = TTuple([TInt, lty.elem])
-                self.bind_target(s.target, SV(tv, tv.mk(idx, elem.t)), None, s)
+                self.bind_target(s.target, SV(tv, tv.mk(idx + enum_start, elem.t)), None, s)
             elif mode == "values":
                 self.bind_target(s.target, SV(dct.ty.val, z3.Select(dct.ty.val_(dct.t), elem.t)), None, s)
             elif mode == "items":
